@@ -676,6 +676,21 @@ impl<'a> Gen<'a> {
     fn iter_expr(&mut self, elem: &Ty, depth: usize) -> Expr {
         let it_ty = Ty::iter_of(elem.clone());
         let known: Vec<Var> = self.vars_of(|t| crate::ty::sub(t, &it_ty)).into_iter().filter(|v| self.iterators.contains(&v.name)).collect();
+        if depth >= 1 && matches!(elem, Ty::Int | Ty::Str | Ty::Bool | Ty::Float) && self.tape.chance(1, 6) {
+            // a type filter that changes the element type: over a source of another scalar type (nothing
+            // passes, but the source is pulled to its end and the stages below run), or over a
+            // mixed array
+            let other = self.gen_scalar_ty();
+            self.label("type filter to another type");
+            if self.tape.bool() {
+                let inner = self.iter_expr(&other, depth - 1);
+                return Expr::TypeFilter(Box::new(inner), elem.clone());
+            }
+            let n = self.tape.below(5);
+            let items: Vec<Expr> = (0..n).map(|_| if self.tape.bool() { self.expr(elem, depth - 1) } else { self.expr(&other, depth - 1) }).collect();
+            let source = if items.is_empty() { self.empty_arr(elem) } else { Expr::Array(items) };
+            return Expr::TypeFilter(Box::new(Expr::Iter(Box::new(source))), elem.clone());
+        }
         let mut e = if !known.is_empty() && self.tape.chance(1, 4) {
             Expr::Var(known[self.tape.below(known.len())].name.clone())
         } else {
@@ -1248,7 +1263,56 @@ impl<'a> Gen<'a> {
         Stmt::Block(vec![decl, s])
     }
 
+    /// `match <array built along one route> { <other content> => .., <the same content, built along another route> => .., => .. }`:
+    /// value arms compare arrays by content, whatever element type the array is labelled with
+    fn match_array_by_value(&mut self, depth: usize, value: Option<&Ty>) -> Stmt {
+        self.label("match on an array by value");
+        let n = 1 + self.tape.below(3);
+        let xs: Vec<Expr> = (0..n).map(|_| self.lit(&Ty::Int)).collect();
+        let extra = self.lit(&Ty::Str);
+        let route = |g: &mut Self, xs: &[Expr]| -> Expr {
+            match g.tape.below(5) {
+                0 => Expr::Array(xs.to_vec()),
+                1 => {
+                    // a slice of a longer, mixed array
+                    let mut padded = xs.to_vec();
+                    padded.push(extra.clone());
+                    Expr::Slice(Box::new(Expr::Array(padded)), None, Some(Box::new(Expr::Int(xs.len() as i64))), None)
+                }
+                2 => {
+                    let k = g.tape.below(xs.len() + 1);
+                    Expr::Bin("+", Box::new(Expr::Array(xs[..k].to_vec())), Box::new(Expr::Array(xs[k..].to_vec())))
+                }
+                3 => {
+                    // collected from a mixed array through a type filter
+                    let mut mixed = vec![extra.clone()];
+                    mixed.extend(xs.iter().cloned());
+                    Expr::Post("$]", Box::new(Expr::TypeFilter(Box::new(Expr::Iter(Box::new(Expr::Array(mixed)))), Ty::Int)))
+                }
+                _ => Expr::Post("$]", Box::new(Expr::Iter(Box::new(Expr::Array(xs.to_vec()))))),
+            }
+        };
+        let scrutinee = route(self, &xs);
+        let mut arms = vec![];
+        if self.tape.bool() {
+            // a decoy with other content first
+            let mut other = xs.clone();
+            other.push(Expr::Int(77));
+            let body = self.block(depth.saturating_sub(1), 1, value);
+            arms.push(Arm::Values(vec![route(self, &other)], body));
+        }
+        let same = route(self, &xs);
+        let cands = if self.tape.bool() { vec![Expr::Array(vec![Expr::Int(78)]), same] } else { vec![same] };
+        let body = self.block(depth.saturating_sub(1), 1, value);
+        arms.push(Arm::Values(cands, body));
+        arms.push(Arm::Other(self.block(depth.saturating_sub(1), 1, value)));
+        Stmt::Match(scrutinee, arms)
+    }
+
     fn match_stmt(&mut self, depth: usize, value: Option<&Ty>) -> Stmt {
+        if depth >= 1 && self.tape.chance(1, 8) {
+            return self.match_array_by_value(depth, value);
+        }
         // scrutinee: a union of scalars (run-time type unambiguous)
         let members: Vec<Ty> = {
             let mut ms = vec![self.gen_dispatch_ty(), self.gen_dispatch_ty()];
